@@ -167,7 +167,7 @@ func runLimitProbe(pr limitProbe, seed int64) string {
 		s.feed(o, "eof")
 	}
 	bf := p2psync.NewBlockFetcher(node.BC, &fakeCompiler{}, net, chainkit.Network, log.NewNopZapLogger())
-	ctx, cancel := context.WithTimeout(context.Background(), 20*time.Second)
+	ctx, cancel := context.WithTimeout(context.Background(), 300*time.Second) // (wall clock on a shared machine; an observation, never a verdict)
 	defer cancel()
 	ch := make(chan p2psync.BlockBody, 4)
 	if err := bf.ProcessBlock(ctx, uint64(target), ch); err != nil {
